@@ -150,10 +150,10 @@ def gen_chain(r, coin, n, max_txs=4, max_io=3, segwit=True, odd_widths=True, aux
     return blocks
 
 
-def simple_layout(scn, blocks, per_file=None, r=None, pad=5, first_height=0, status=K.ACTIVE, gap=0, swap=0.0):
+def simple_layout(scn, blocks, per_file=None, r=None, pad=5, first_height=0, status=K.ACTIVE, gap=0, swap=0.0, file_of=None):
     """blocks placed `per_file` to a blk file, in height order — or, with `swap` > 0 (needs r), in ARRIVAL order: neighbours inside a
     file are swapped with that probability, as when a node receives blocks out of order; writes the index records of an active chain"""
-    fnos = [(i // per_file) if per_file else 0 for i in range(len(blocks))]
+    fnos = [file_of(i) if file_of else ((i // per_file) if per_file else 0) for i in range(len(blocks))]
     order = list(range(len(blocks)))
     if swap and r is not None:
         for j in range(len(order) - 1):
@@ -265,7 +265,7 @@ def xor_key(r, magic=None):
     return rb(r, n)
 
 
-def long_chain(r, coin, n, addresses=60, txs_per_block=1, spend_every=5, auxpow=False):
+def long_chain(r, coin, n, addresses=60, txs_per_block=1, spend_every=5, auxpow=False, growing=False):
     """n small linked blocks: what only shows at scale — hundreds of thousands of rows, counters and sums past 2^16 / 2^32 / 2^53 / 2^63,
     a UTXO map that grows and shrinks over a long history (outputs spent thousands of blocks after they were created), many distinct
     addresses, thousands of OP_RETURN lines.  Values are ~5*10^15 per coinbase so that the running volume leaves 2^53 after two blocks
@@ -273,15 +273,21 @@ def long_chain(r, coin, n, addresses=60, txs_per_block=1, spend_every=5, auxpow=
     pool = [b"\x76\xa9\x14" + rb(r, 20) + b"\x88\xac" for _ in range(addresses)]
     unit = (5 * 10**15) if n <= 3500 else (17 * 10**18) // (n + 1)
     blocks, prev, avail = [], b"\0" * 32, []
+    ctr = 0          # every extra output pays the next address of the pool: `addresses` distinct scripts, then the first ones again
     for h in range(n):
         outs = [(unit + h, pool[(h * 7) % addresses])]
         if h % 7 == 0:
             outs.append((0, b"\x6a" + bytes([4 + h % 60]) + (b"n%06d" % h + b"." * 60)[:4 + h % 60]))
-        cbx = K.Tx([(b"\0" * 32, 0xffffffff, bytes([3, h & 255, (h >> 8) & 255, (h >> 16) & 255]), 0xffffffff)], outs)
+        sig = bytes([3, h & 255, (h >> 8) & 255, (h >> 16) & 255])
+        if growing:
+            # block sizes and gaps that drift over the chain: any figure computed over a window or a sample differs from the one over all
+            sig += b"\x07" * (60 * h // n)
+        cbx = K.Tx([(b"\0" * 32, 0xffffffff, sig, 0xffffffff)], outs)
         txs = [cbx]
         avail.append((cbx.txid(), 0))
         for j in range(txs_per_block - 1):
-            txs.append(K.Tx([(rb(r, 32), j, b"\x01\x01", 0xffffffff)], [(1 + j, pool[(h + j) % addresses])]))
+            txs.append(K.Tx([(rb(r, 32), j, b"\x01\x01", 0xffffffff)], [(1 + j, pool[ctr % addresses])]))
+            ctr += 1
         if h % spend_every == spend_every - 1 and len(avail) > 3:
             # spends reach far back: the oldest unspent output and a random one
             ins = [avail.pop(0), avail.pop(r.randrange(len(avail)))]
@@ -293,7 +299,7 @@ def long_chain(r, coin, n, addresses=60, txs_per_block=1, spend_every=5, auxpow=
         if auxpow and coin in K.AUXPOW:
             version = K.AUXPOW[coin] | (h & 0xff)
             aux = K.auxpow_section(r)
-        b = K.Block(txs, prev=prev, version=version, time=(1231006505 + 600 * h + (r.randrange(-3000, 3000) if h % 11 == 0 else 0)) & 0xffffffff, nonce=h, auxpow=aux)
+        b = K.Block(txs, prev=prev, version=version, time=(1231006505 + (600 * h if not growing else 300 * h + h * h // 40) + (r.randrange(-3000, 3000) if h % 11 == 0 else 0)) & 0xffffffff, nonce=h, auxpow=aux)
         prev = b.hash()
         blocks.append(b)
     return blocks
